@@ -332,7 +332,9 @@ func genCall(thorough bool) Gen {
 		for np := 1; np <= 3; np++ {
 			for _, body := range []int{0, 3} {
 				np, body := np, body
-				def := func() []Stat { return []Stat{LocalFunc("callee", Func(params(np), false, c02Body(np, false, body)...))} }
+				def := func() []Stat {
+					return []Stat{LocalFunc("callee", Func(params(np), false, c02Body(np, false, body)...))}
+				}
 				emitAll("F-call", fmt.Sprintf("pcall-fixed[p%d,b%d]", np, body), def, func(a []Expr) Expr { return CallN("pcall", append([]Expr{Name("callee")}, a...)...) }, argvs, ctxs[:8])
 				emitAll("F-call", fmt.Sprintf("hcall-fixed[p%d,b%d]", np, body), def, func(a []Expr) Expr { return CallN("hcall", append([]Expr{Name("callee")}, a...)...) }, argvs, ctxs[:8])
 				defObj := func() []Stat {
